@@ -85,6 +85,18 @@ def make_units(tier):
                         for d, tg in zip(ds, 'ABC'):
                             d['tag'] = tg
                         units.append({'name': 'triple', 'inters': ds, 'flavour': flavour, 'fs': fs, 'bound': 1, 'shard': [0, 1]})
+    # request objects created in one order and subscribed in the reverse order (ids allocated at creation, request frames sent
+    # at subscribe): every pair of stream / channel interactions, both initiators, both framings
+    for flavour in ('tcp', 'msg'):
+        for fs in (None, 64):
+            for ka, kb in (('stream', 'stream'), ('stream', 'channel'), ('channel', 'channel'), ('channel', 'stream')):
+                for ia, ib in (('c', 'c'), ('s', 's'), ('c', 's')):
+                    ds = []
+                    for tg, kd, ini in (('A', ka, ia), ('B', kb, ib)):
+                        ds.append(dict(kind=kd, init=ini, tag=tg, down=2, up=1 if kd == 'channel' else 0, size='F' if fs else 'S', pub='manual',
+                                       credit='max', ending='flag' if tg == 'A' else 'complete'))
+                    units.append({'name': 'lazy-reverse:%s%s+%s%s' % (ka, ia, kb, ib), 'inters': ds, 'flavour': flavour, 'fs': fs, 'bound': 1,
+                                  'shard': [0, 1], 'lazy_reverse': True})
     return units
 
 
@@ -97,7 +109,7 @@ def bounds(tier):
 def scenario_of(unit):
     alts = ('all', 'chunk') if unit['flavour'] in ('tcp', 'quic') else ('all',)
     return Mix([Inter.from_spec(_full(d)) for d in unit['inters']], unit['flavour'], unit['fs'], alts=alts,
-               modes=('Q', '0'), monitors_=('delivery',), name='mix', policy=unit.get('policy', 'deliver-first'), round_robin=unit.get('round_robin', False), slow_sender=unit.get('slow_sender', False))
+               modes=('Q', '0'), monitors_=('delivery',), name='mix', policy=unit.get('policy', 'deliver-first'), round_robin=unit.get('round_robin', False), slow_sender=unit.get('slow_sender', False), lazy_reverse=unit.get('lazy_reverse', False))
 
 
 def _full(d):
